@@ -28,7 +28,8 @@ LEVEL_TEXT = ("Generated ordered dicts of 1-6 named games mixing solvable stoppi
               "no-solution games and malformed games; each dict is run as drawn, permuted and as a subset; every entry is "
               "compared field by field (==, including iteration counts and both diagnostic vectors) with a solo solve on "
               "a deep copy, across the three runs, and the failure bookkeeping is checked. Exploration over inputs and "
-              "short histories of batch runs.")
+              "short histories of batch runs."
+              ' Added while validating sensitivity: twin entries - an exact copy, or a single-fault copy, of an earlier game of the same batch.')
 LEVEL_NOTE = ("Trusted: solo StochasticGame(**deepcopy(g)).solve() as the reference (the solver itself is covered by "
               "C01-C06); names never end in the reserved suffix '_no_prune' (two result keys would collide by design of "
               "the naming scheme).")
